@@ -1,11 +1,11 @@
 SPECIFICATION Spec
 CONSTANTS
-  Procs = {1, 2, 3}
-  Prog <- IB
+  Procs = {1, 2}
+  Prog <- IE
   MaxNodes = 7
-  KeyOf <- Keys6
+  KeyOf <- Keys4
   FindPrevStrict = FALSE
-  InitList <- NoInit
+  InitList <- InitE
   EarlyFindPrev = FALSE
   EraseAtObserved = FALSE
 INVARIANTS LinOK ListMatches FinalSorted
